@@ -3,6 +3,8 @@ package props
 import (
 	"encoding/json"
 	"fmt"
+	"math"
+	"reflect"
 	"strings"
 	"sync"
 
@@ -251,6 +253,11 @@ func runC09(c *core.Ctx) {
 			res.Eval()
 		}()
 	}
+	// ---- values of every dynamic kind (uncomparable ones included), overwritten at the front and
+	// away from it; signed zeros; the largest capacity
+	if c.Shard == 0 {
+		c09ValueKinds(res)
+	}
 	// ---- bounded exhaustive
 	L := c.Pick(6, 7)
 	alphabet := []lruOp{}
@@ -453,4 +460,62 @@ func dumpLines(d string) int {
 		return strings.Count(n, "\n") + 1
 	}
 	return 0
+}
+
+func c09ValueKinds(res *core.Result) {
+	f1, f2 := func() int { return 1 }, func() int { return 2 }
+	type pair struct {
+		name   string
+		v1, v2 interface{}
+		same   func(got, want interface{}) bool
+	}
+	deep := func(a, b interface{}) bool { return reflect.DeepEqual(a, b) }
+	pairs := []pair{
+		{"[]int", []int{1, 2}, []int{3}, deep},
+		{"[]int equal content", []int{1, 2}, []int{1, 2}, deep},
+		{"map", map[string]int{"a": 1}, map[string]int{"b": 2}, deep},
+		{"struct with slice", struct{ S []string }{[]string{"x"}}, struct{ S []string }{[]string{"y"}}, deep},
+		{"func", f1, f2, func(a, b interface{}) bool { return reflect.ValueOf(a).Pointer() == reflect.ValueOf(b).Pointer() }},
+		{"+0.0 then -0.0", 0.0, math.Copysign(0, -1), func(a, b interface{}) bool {
+			x, ok1 := a.(float64)
+			y, ok2 := b.(float64)
+			return ok1 && ok2 && x == y && math.Signbit(x) == math.Signbit(y)
+		}},
+		{"int then string", 7, "7", deep},
+		{"nil then 0", nil, 0, deep},
+	}
+	for _, capacity := range []int{1, 2, 3, math.MaxInt, math.MaxInt - 1} {
+		for _, front := range []bool{true, false} {
+			for _, p := range pairs {
+				func() {
+					desc := fmt.Sprintf("capacity %d, values %s, overwritten key at the front=%v", capacity, p.name, front)
+					defer func() {
+						if r := recover(); r != nil {
+							res.Violate("C09|value-kinds|panic", fmt.Sprintf("%s: panic %v", desc, r), desc)
+						}
+					}()
+					l := valid.NewLRU(capacity)
+					removed := 0
+					l.SetDelCallBackFn(func(k, v interface{}) { removed++ })
+					l.Store("k", p.v1)
+					if !front && capacity >= 2 {
+						l.Store("other", 1) // "k" is no longer the most recently used key
+					}
+					l.Store("k", p.v2)
+					got, ok := l.Load("k")
+					res.Eval()
+					wantLen := 1
+					if !front && capacity >= 2 {
+						wantLen = 2
+					}
+					if !ok || !p.same(got, p.v2) {
+						res.Violate("C09|value-kinds|stale-value", fmt.Sprintf("%s: Store(k,v1) Store(k,v2) Load(k) returned %v,%v — not the value most recently stored", desc, got, ok), desc)
+					}
+					if n := l.Len(); n != wantLen || removed != 0 {
+						res.Violate("C09|value-kinds|len-or-callback", fmt.Sprintf("%s: Len()=%d (want %d), removal callbacks=%d (want 0)", desc, n, wantLen, removed), desc)
+					}
+				}()
+			}
+		}
+	}
 }
